@@ -386,7 +386,7 @@ func master() int {
 		"seed":        seed,
 		"level":       p.Level,
 		"coverage":    cov,
-		"assumptions": p.Assumptions,
+		"assumptions": append([]string{}, p.Assumptions...),
 		"wall_s":      time.Since(start).Seconds(),
 		"violations":  violations,
 	}
